@@ -31,7 +31,7 @@ def _float_token(x):
     return "f" + x.hex()
 
 
-def _walk(obj, memo, out, skip_gen, path):
+def _walk(obj, memo, out, skip_gen, path, sort_dicts=False):
     """Append the normal form of obj to out (list of str)."""
     t = type(obj)
     if t in _ATOMS:
@@ -55,7 +55,7 @@ def _walk(obj, memo, out, skip_gen, path):
         return
     if isinstance(obj, types.MethodType):
         out.append("meth:" + obj.__func__.__qualname__)
-        _walk(obj.__self__, memo, out, skip_gen, path + ("__self__",))
+        _walk(obj.__self__, memo, out, skip_gen, path + ("__self__",), sort_dicts)
         return
 
     oid = id(obj)
@@ -73,7 +73,7 @@ def _walk(obj, memo, out, skip_gen, path):
                 out.append(np.ascontiguousarray(obj[name]).tobytes().hex())
         elif obj.dtype == object:
             for i, v in enumerate(obj.ravel().tolist()):
-                _walk(v, memo, out, skip_gen, path + (i,))
+                _walk(v, memo, out, skip_gen, path + (i,), sort_dicts)
         else:
             a = np.ascontiguousarray(obj)
             if a.dtype.kind == "f":
@@ -87,39 +87,42 @@ def _walk(obj, memo, out, skip_gen, path):
             out.append("gen:*")
         else:
             out.append("gen:")
-            _walk(obj.bit_generator.state, memo, out, skip_gen, path + ("state",))
+            _walk(obj.bit_generator.state, memo, out, skip_gen, path + ("state",), sort_dicts)
         return
     if isinstance(obj, np.random.RandomState):
         out.append("rs:")
         if not skip_gen:
             st = obj.get_state(legacy=False)
-            _walk(st, memo, out, skip_gen, path + ("state",))
+            _walk(st, memo, out, skip_gen, path + ("state",), sort_dicts)
         return
     if isinstance(obj, functools.partial):
         out.append("partial:")
-        _walk(obj.func, memo, out, skip_gen, path + ("func",))
-        _walk(obj.args, memo, out, skip_gen, path + ("args",))
-        _walk(obj.keywords, memo, out, skip_gen, path + ("kw",))
+        _walk(obj.func, memo, out, skip_gen, path + ("func",), sort_dicts)
+        _walk(obj.args, memo, out, skip_gen, path + ("args",), sort_dicts)
+        _walk(obj.keywords, memo, out, skip_gen, path + ("kw",), sort_dicts)
         return
     if isinstance(obj, dict):
         out.append("dict:%s:%d" % (type(obj).__name__, len(obj)))
         if isinstance(obj, defaultdict):
-            _walk(obj.default_factory, memo, out, skip_gen, path + ("default_factory",))
-        for k, v in obj.items():          # insertion order is behaviour
-            _walk(k, memo, out, skip_gen, path + ("key",))
-            _walk(v, memo, out, skip_gen, path + (k,))
+            _walk(obj.default_factory, memo, out, skip_gen, path + ("default_factory",), sort_dicts)
+        items = list(obj.items())         # insertion order is behaviour ...
+        if sort_dicts:                    # ... except where the caller compares contents only
+            items.sort(key=lambda kv: repr(kv[0]))
+        for k, v in items:
+            _walk(k, memo, out, skip_gen, path + ("key",), sort_dicts)
+            _walk(v, memo, out, skip_gen, path + (k,), sort_dicts)
         return
     if isinstance(obj, (list, tuple)):
         out.append("%s:%s:%d" % ("list" if isinstance(obj, list) else "tuple", type(obj).__name__, len(obj)))
         for i, v in enumerate(obj):
-            _walk(v, memo, out, skip_gen, path + (i,))
+            _walk(v, memo, out, skip_gen, path + (i,), sort_dicts)
         return
     if isinstance(obj, (set, frozenset)):
         out.append("set:%d" % len(obj))
         parts = []
         for v in obj:
             sub = []
-            _walk(v, memo, sub, skip_gen, path + ("elem",))
+            _walk(v, memo, sub, skip_gen, path + ("elem",), sort_dicts)
             parts.append("|".join(sub))
         out.extend(sorted(parts))
         return
@@ -127,8 +130,8 @@ def _walk(obj, memo, out, skip_gen, path):
     if mod.startswith("sklearn.tree._tree") or type(obj).__name__ == "Tree":
         red = obj.__reduce__()
         out.append("cytree:")
-        _walk(tuple(red[1]), memo, out, skip_gen, path + ("args",))
-        _walk(red[2], memo, out, skip_gen, path + ("state",))
+        _walk(tuple(red[1]), memo, out, skip_gen, path + ("args",), sort_dicts)
+        _walk(red[2], memo, out, skip_gen, path + ("state",), sort_dicts)
         return
     if mod.startswith(("mabwiser", "sklearn", "mcx")) or hasattr(obj, "__dict__"):
         out.append("obj:" + mod + "." + type(obj).__qualname__)
@@ -138,20 +141,20 @@ def _walk(obj, memo, out, skip_gen, path):
             state = getattr(obj, "__dict__", None)
         if not isinstance(state, dict):
             raise UnknownObject("no dict state for %r at %r" % (type(obj), path))
-        _walk(state, memo, out, skip_gen, path)
+        _walk(state, memo, out, skip_gen, path, sort_dicts)
         return
     raise UnknownObject("cannot canonicalise %r at %r" % (type(obj), path))
 
 
-def tokens(obj, skip_generators=False):
+def tokens(obj, skip_generators=False, sort_dicts=False):
     out = []
-    _walk(obj, {}, out, skip_generators, ())
+    _walk(obj, {}, out, skip_generators, (), sort_dicts)
     return out
 
 
-def digest(obj, skip_generators=False):
+def digest(obj, skip_generators=False, sort_dicts=False):
     h = hashlib.blake2b(digest_size=16)
-    for tok in tokens(obj, skip_generators):
+    for tok in tokens(obj, skip_generators, sort_dicts):
         h.update(tok.encode("utf-8", "surrogatepass"))
         h.update(b"\x00")
     return h.hexdigest()
